@@ -1,0 +1,34 @@
+//! Verification hooks: thin `pub` wrappers around module-private items so that an external
+//! harness crate can drive them. Compiled only with `--cfg zcash_librustzcash_verif`; adds no
+//! behaviour. This file is a child module of `spanning_tree`.
+
+use super::{Insert, Joined, dominance as dominance_inner, insert as insert_inner, join_nonoverlapping as join_inner};
+use crate::data_api::scanning::{ScanPriority, ScanRange};
+
+fn unpack(j: Joined) -> (usize, [Option<ScanRange>; 3]) {
+    match j {
+        Joined::One(a) => (1, [Some(a), None, None]),
+        Joined::Two(a, b) => (2, [Some(a), Some(b), None]),
+        Joined::Three(a, b, c) => (3, [Some(a), Some(b), Some(c)]),
+    }
+}
+
+/// The leaf-level `insert(current, to_insert, force_rescans)`.
+pub fn insert(current: ScanRange, to_insert: ScanRange, force_rescans: bool) -> (usize, [Option<ScanRange>; 3]) {
+    unpack(insert_inner(current, to_insert, force_rescans))
+}
+
+/// `join_nonoverlapping(left, right)`.
+pub fn join_nonoverlapping(left: ScanRange, right: ScanRange) -> (usize, [Option<ScanRange>; 3]) {
+    unpack(join_inner(left, right))
+}
+
+/// `dominance(current, inserted, Insert::right(force))`: 0 = the current range's priority wins,
+/// 1 = the inserted range's priority wins, 2 = equal.
+pub fn dominance(current: ScanPriority, inserted: ScanPriority, force_rescans: bool) -> u8 {
+    match dominance_inner(&current, &inserted, Insert::right(force_rescans)) {
+        super::Dominance::Left => 0,
+        super::Dominance::Right => 1,
+        super::Dominance::Equal => 2,
+    }
+}
